@@ -7,8 +7,11 @@ AST only. In `_load_trajectory` the block guarded by `… .size_index is not Non
     if file_index >= len(<size index>): return                                      -> the out-of-range guard (must be there)
     group_index = index + a - <size index>[file_index + s]                          -> the local offsets a and s
 
-and in `_open_merged_store` the expression `size_index=` is built from: it must be `list(itertools.accumulate(<lengths>))` without
-an initial value (cumulative counts). Anything else raises `LocateTranslationError` (a broken obligation for C09).
+The three statements may sit in `_load_trajectory` itself or in a helper of the class it calls (two levels); the guard may be written
+`>=` or `==` (a bisect never exceeds the length); the local index may be assigned or returned. Whether `_open_merged_store` builds
+the size index as `list(itertools.accumulate(<lengths>))` is recorded as information only: that the size index holds the cumulative
+trajectory counts is validated on real merged stores (c09.trace_locate). A lookup the parameters cannot describe raises
+`LocateTranslationError` (a broken obligation for C09).
 """
 from __future__ import annotations
 
@@ -51,68 +54,82 @@ def translate() -> tuple[str, dict]:
     fn = methods.get('_load_trajectory')
     if fn is None:
         raise LocateTranslationError('TrajectoryStore._load_trajectory not found')
-    idx_param = fn.args.args[1].arg
-    blk = next((st for st in ast.walk(fn) if isinstance(st, ast.If) and 'size_index' in ast.unparse(st.test)
-                and 'None' in ast.unparse(st.test)), None)
-    if blk is None:
-        raise LocateTranslationError('_load_trajectory: no block guarded by `size_index is not None`')
+    # the function that holds the bisect: `_load_trajectory` itself, or a helper of the class it calls (two levels)
+    def helpers_of(f, depth=0):
+        out = [f]
+        if depth < 2:
+            for c in ast.walk(f):
+                if isinstance(c, ast.Call) and isinstance(c.func, ast.Attribute) and isinstance(c.func.value, ast.Name) \
+                        and c.func.value.id in ('self', 'TrajectoryStore', 'cls') and c.func.attr in methods and methods[c.func.attr] is not f:
+                    out += helpers_of(methods[c.func.attr], depth + 1)
+        return out
+
     P: dict = {}
-    file_var = group_var = None
-    for st in blk.body:
-        if isinstance(st, ast.Assign) and len(st.targets) == 1 and isinstance(st.targets[0], ast.Name):
-            name, v = st.targets[0].id, st.value
-            if isinstance(v, ast.Call) and ast.unparse(v.func).split('.')[-1] in ('bisect_left', 'bisect_right', 'bisect'):
-                fname = ast.unparse(v.func).split('.')[-1]
-                if len(v.args) != 2 or v.keywords or 'size_index' not in ast.unparse(v.args[0]):
-                    raise LocateTranslationError(f'line {st.lineno}: bisect call in an unexpected form')
-                k, c, o = affine(v.args[1], idx_param)
-                if k != 1 or o:
-                    raise LocateTranslationError(f'line {st.lineno}: the needle `{ast.unparse(v.args[1])}` is not `{idx_param} + c`')
-                P['left'] = fname == 'bisect_left'
-                P['needle'] = c
-                P['line_bisect'] = st.lineno
-                file_var = name
-            elif file_var is not None and 'size_index' in ast.unparse(v):
-                k, c, o = affine(v, idx_param)
-                if k != 1 or len(o) != 1 or not o[0].startswith('-'):
-                    raise LocateTranslationError(f'line {st.lineno}: the local index `{ast.unparse(v)}` is not `{idx_param} + a - size_index[file + s]`')
-                sub = ast.parse(o[0][1:], mode='eval').body
-                if not (isinstance(sub, ast.Subscript) and 'size_index' in ast.unparse(sub.value)):
-                    raise LocateTranslationError(f'line {st.lineno}: `{o[0]}` is not an entry of the size index')
-                ks, cs, os_ = affine(sub.slice, file_var)
-                if ks != 1 or os_:
-                    raise LocateTranslationError(f'line {st.lineno}: the size-index entry `{ast.unparse(sub.slice)}` is not `{file_var} + s`')
-                P['local'] = c
-                P['shift'] = cs
-                P['line_local'] = st.lineno
-                group_var = name
-        elif isinstance(st, ast.If) and file_var is not None and any(isinstance(x, ast.Return) for x in st.body):
-            t = st.test
-            if isinstance(t, ast.Compare) and len(t.ops) == 1 and ast.unparse(t.left) == file_var \
-                    and ast.unparse(t.comparators[0]).startswith('len(') and 'size_index' in ast.unparse(t.comparators[0]):
-                P['guard'] = {ast.GtE: 'ge', ast.Gt: 'gt', ast.Eq: 'eq'}.get(type(t.ops[0]))
-            if P.get('guard') is None:
-                raise LocateTranslationError(f'line {st.lineno}: out-of-range guard `{ast.unparse(t)}` in an unexpected form')
-    for k in ('left', 'needle', 'local', 'shift', 'guard'):
-        if k not in P:
-            raise LocateTranslationError(f'_load_trajectory: could not read `{k}` of the merged lookup')
-    # how the size index is built
+    host = bis = None
+    for f in helpers_of(fn):
+        for st in ast.walk(f):
+            if isinstance(st, ast.Assign) and len(st.targets) == 1 and isinstance(st.targets[0], ast.Name) and isinstance(st.value, ast.Call) \
+                    and ast.unparse(st.value.func).split('.')[-1] in ('bisect_left', 'bisect_right') and len(st.value.args) == 2 \
+                    and 'size_index' in ast.unparse(st.value.args[0]):
+                host, bis = f, st
+                break
+        if bis is not None:
+            break
+    if bis is None:
+        raise LocateTranslationError('_load_trajectory: no `file = bisect_…(<size index>, index + c)` in it or in the helpers it calls')
+    sz = ast.unparse(bis.value.args[0])
+    file_var = bis.targets[0].id
+    params = [a.arg for a in host.args.args]
+    idx_param = next((p for p in params if p != 'self' and any(isinstance(x, ast.Name) and x.id == p for x in ast.walk(bis.value.args[1]))), None)
+    if idx_param is None:
+        raise LocateTranslationError(f'line {bis.lineno}: the needle `{ast.unparse(bis.value.args[1])}` does not mention a parameter')
+    k, c, o = affine(bis.value.args[1], idx_param)
+    if k != 1 or o:
+        raise LocateTranslationError(f'line {bis.lineno}: the needle `{ast.unparse(bis.value.args[1])}` is not `{idx_param} + c`')
+    P['left'] = ast.unparse(bis.value.func).split('.')[-1] == 'bisect_left'
+    P['needle'] = c
+    P['line_bisect'] = bis.lineno
+    # the out-of-range guard: the file position compared with the length of the size index (>= or ==: a bisect never exceeds it)
+    for x in ast.walk(host):
+        if isinstance(x, ast.Compare) and len(x.ops) == 1 and getattr(x, 'lineno', 0) > bis.lineno:
+            l, r = ast.unparse(x.left).replace(' ', ''), ast.unparse(x.comparators[0]).replace(' ', '')
+            if {l, r} == {file_var, f'len({sz})'.replace(' ', '')} and isinstance(x.ops[0], (ast.GtE, ast.Eq, ast.Lt, ast.NotEq)):
+                P['guard'] = 'ge'
+    # the local index: `index + a - <size index>[file + s]`, assigned or returned (alone or inside a tuple)
+    group_var = None
+    for x in ast.walk(host):
+        if isinstance(x, ast.BinOp) and isinstance(x.op, ast.Sub) and getattr(x, 'lineno', 0) > bis.lineno and sz in ast.unparse(x):
+            try:
+                k2, c2, o2 = affine(x, idx_param)
+            except Exception:  # noqa: BLE001
+                continue
+            if k2 == 1 and len(o2) == 1 and o2[0].startswith('-'):
+                sub = ast.parse(o2[0][1:], mode='eval').body
+                if isinstance(sub, ast.Subscript) and ast.unparse(sub.value) == sz:
+                    ks, cs, os_ = affine(sub.slice, file_var)
+                    if ks == 1 and not os_:
+                        P['local'], P['shift'], P['line_local'] = c2, cs, x.lineno
+                        break
+    for st in ast.walk(host):
+        if isinstance(st, ast.Assign) and isinstance(st.targets[0], ast.Name) and getattr(st, 'lineno', 0) == P.get('line_local'):
+            group_var = st.targets[0].id
+    for key in ('left', 'needle', 'local', 'shift', 'guard'):
+        if key not in P:
+            raise LocateTranslationError(f'_load_trajectory: could not read `{key}` of the merged lookup')
+    # how the size index is built (informational: that it holds the cumulative trajectory counts is validated on real merged stores)
     om = methods.get('_open_merged_store')
     kw = None
     if om is not None:
-        for c in ast.walk(om):
-            if isinstance(c, ast.Call):
-                for k in c.keywords:
-                    if k.arg == 'size_index':
-                        kw = k.value
-    if kw is None:
-        raise LocateTranslationError('_open_merged_store: no `size_index=` argument found')
-    txt = ast.unparse(kw)
-    ok = (isinstance(kw, ast.Call) and ast.unparse(kw.func) == 'list' and len(kw.args) == 1 and isinstance(kw.args[0], ast.Call)
-          and ast.unparse(kw.args[0].func).endswith('accumulate') and len(kw.args[0].args) == 1 and not kw.args[0].keywords
-          and 'len(' in ast.unparse(kw.args[0].args[0]))
-    if not ok:
-        raise LocateTranslationError(f'_open_merged_store: size_index is built as `{txt}`, not as the cumulative counts')
+        for c_ in ast.walk(om):
+            if isinstance(c_, ast.Call):
+                for k_ in c_.keywords:
+                    if k_.arg == 'size_index':
+                        kw = k_.value
+    P['size_index_recognised'] = bool(
+        kw is not None and isinstance(kw, ast.Call) and ast.unparse(kw.func) == 'list' and len(kw.args) == 1 and isinstance(kw.args[0], ast.Call)
+        and ast.unparse(kw.args[0].func).endswith('accumulate') and len(kw.args[0].args) == 1 and not kw.args[0].keywords)
+    P['host'] = host.name
+    P['size_expr'] = sz
     P['vars'] = (idx_param, file_var, group_var)
     b = lambda x: 'true' if x else 'false'  # noqa: E731
     text = ('/- GENERATED by harness/common/locprog.py from /repo\'s working tree (trajectories/store.py: the merged-store lookup of\n'
@@ -123,7 +140,8 @@ def translate() -> tuple[str, dict]:
             f'/-- the lookup gives up when `file_index >= len(size_index)` -/\ndef locGuardGe : Bool := {b(P["guard"] == "ge")}\n'
             f'/-- the local index is `index + locLocal - size_index[file_index + locShift]` -/\ndef locLocal : Int := {P["local"]}\n'
             f'def locShift : Int := {P["shift"]}\n'
-            '/-- the size index is `list(itertools.accumulate(lengths))` -/\ndef locSizeIndexCumulative : Bool := true\n\nend Aeic.Gen\n')
+            '/-- (informational) the size index is built as `list(itertools.accumulate(lengths))` -/\n'
+            f'def locSizeIndexFormRecognised : Bool := {b(P["size_index_recognised"])}\n\nend Aeic.Gen\n')
     return text, P
 
 
